@@ -52,6 +52,10 @@ CLAIMED = {
         text="Lean 4 proofs over a decoration model (visibility on items and fields, bon::Builder derive and #[builder(..)] attributes): erase∘decorate is the identity for every flag setting, so any two settings erase to the same wire skeleton; every decorated item/field carries exactly the requested visibility; builder decorations exist only with builders on. The judge used on the implementation is that same erasure: for every corpus spec the generator is run in-process over the whole 3x2x2x2x{types, client-mod} lattice next to the default run, and the emitted items are compared after erasure (type definitions, members, member types, serde/validation attributes token-for-token), with only header constants, helper/builder methods and imports allowed to appear or disappear, and the requested visibility checked on every item, field, inherent method and associated constant.",
         note="Partial by nature: that the modelled decorations are ALL that the flags change is what the lattice comparison measures; it is not a theorem about the generator. Known finding: header constants are always `pub`.",
         ref="§6 C18"),
+    "C19": dict(
+        text="Lean 4 proofs: a brace-free literal used as a Rust format string prints exactly itself, while the kernel-decided witnesses `a{b}` (no such format string) and `{{x}}` (prints `{x}`) show what braces do; the format! template of a mixed path segment built from spec text is brace-safe with exactly one placeholder per argument (from C03); identifiers fed to Ident::new/format_ident! are legal (C09); every token re-parse site is in the regenerated, reviewed site table (C12). The relational part is measured: 21 injection payloads x 17 text-bearing positions x client/server x enum modes are generated in-process next to the same spec with inert text; after erasing string literals and doc attributes the token streams must be identical (identifier-deriving positions: identical shape), every literal that is a macro format string must print itself, and the payload must be recoverable from literals/docs (modulo the documented doc normalisation and Rust string escaping).",
+        note="Partial by nature: syn/prettyplease printing is trusted; line-wrapping artefacts (trailing commas, braces around a match-arm body) are normalised before comparison. Known finding: enum values become the format string of write! in Display.",
+        ref="§6 C19"),
 }
 PENDING = ["C01","C02","C03","C04","C05","C06","C07","C08","C10","C11","C12","C13","C14","C15","C16","C17","C18","C19","C20"]
 
